@@ -141,6 +141,15 @@ m2("C08","clone-shares-stack","util/resolve/pypi/version_map.go","\t\tstack: app
 m2("C08","edge-skipped","util/resolve/pypi/resolve.go","\t\t\trvk := req.VersionKey\n\t\t\tif err := g.AddEdge(from, to, rvk.Version, req.Type); err != nil {","\t\t\trvk := req.VersionKey\n\t\t\tif rvk.Version == \"\" && i > 0 {\n\t\t\t\tcontinue\n\t\t\t}\n\t\t\tif err := g.AddEdge(from, to, rvk.Version, req.Type); err != nil {","C08.c","unconstrained requirements after the first get no edge")
 b("c08-copy-shares-incompat", ["C08"], "util/resolve/pypi/resolve.go", "\t\tincompatibilities:  incompatibilities,\n\t\tcandidates:         c.candidates,", "\t\tincompatibilities:  c.incompatibilities,\n\t\tcandidates:         c.candidates,", note="the map is never updated in place today, so sharing it is harmless")
 b("c08-root-guard-positive", ["C08"], "util/resolve/pypi/resolve.go", "\tif req.PackageKey != p.rootPackage {\n\t\treturn getVersionKeys(mvs), nil\n\t}\n\tfor _, mv := range mvs {", "\tif req.PackageKey == p.rootPackage {\n\t\tfor _, mv := range mvs {\n\t\t\tif mv.VersionKey == p.rootVersion {\n\t\t\t\treturn []resolve.VersionKey{p.rootVersion}, nil\n\t\t\t}\n\t\t}\n\t\treturn nil, nil\n\t}\n\tif true {\n\t\treturn getVersionKeys(mvs), nil\n\t}\n\tfor _, mv := range mvs {", note="root test written positively")
+# rules added after the 4th seeding round
+m2("C06","opt-before-dev","util/resolve/npm/resolve.go","\t\tif d.Type.HasAttr(dep.Dev) {\n\t\t\tcontinue\n\t\t}\n\t\tif d.Type.HasAttr(dep.Opt) {\n\t\t\toptPackage[d.Name] = true\n\t\t}","\t\tif d.Type.HasAttr(dep.Opt) {\n\t\t\toptPackage[d.Name] = true\n\t\t}\n\t\tif d.Type.HasAttr(dep.Dev) {\n\t\t\tcontinue\n\t\t}","C06.e","a dev+optional entry suppresses the regular requirement of that name")
+m2("C07","incompatible-returns-edge","util/resolve/maven/resolve.go","\t\t\t\trequirements[c.packageKey] = append(reqs, d.VersionKey)\n\t\t\t\treturn nil, false, errIncompatible\n\t\t\t}\n","\t\t\t\trequirements[c.packageKey] = append(reqs, d.VersionKey)\n\t\t\t}\n","C07.g","already-resolved artifact falls through to a second node")
+b("c06-dev-positive-form", ["C06"], "util/resolve/npm/resolve.go", "\t\tif d.Type.HasAttr(dep.Dev) {\n\t\t\tcontinue\n\t\t}\n\t\tif d.Type.HasAttr(dep.Opt) {\n\t\t\toptPackage[d.Name] = true\n\t\t}\n\t\tif d.Type.IsRegular() {\n\t\t\tregPackage[d.Name] = true\n\t\t}", "\t\tif isDev := d.Type.HasAttr(dep.Dev); !isDev {\n\t\t\tif d.Type.HasAttr(dep.Opt) {\n\t\t\t\toptPackage[d.Name] = true\n\t\t\t}\n\t\t\tif d.Type.IsRegular() {\n\t\t\t\tregPackage[d.Name] = true\n\t\t\t}\n\t\t}", note="dev test in positive form with a named boolean")
+b("c07-incompatible-helper-var", ["C07"], "util/resolve/maven/resolve.go", "\t\t\tif ok := resolvedPackages[c.packageKey]; ok {", "\t\t\talready := resolvedPackages[c.packageKey]\n\t\t\tif already {", note="already-resolved test through a named boolean")
+m2("C08","dedupe-parent-package","util/resolve/pypi/resolve.go","\t\t\tif crit.informationParents[i] == parent {","\t\t\tif crit.informationParents[i].PackageKey == parent.PackageKey {","C08.e","recorded pair de-duplicated by parent package only")
+b("c08-dedupe-fieldwise", ["C08"], "util/resolve/pypi/resolve.go", "\t\t\tif crit.informationParents[i] == parent {", "\t\t\tif old := crit.informationParents[i]; old.PackageKey == parent.PackageKey && old.VersionType == parent.VersionType && old.Version == parent.Version {", note="whole-key comparison spelled field by field")
+m2("C19","writer-quotes-only","util/resolve/internal/versiontest/versiontest.go","\t\t\t\tss = append(ss, value)","\t\t\t\tss = append(ss, strconv.Quote(value))","C19.f","writer quotes values, parser reads them verbatim")
+b("c19-both-sides-quote", ["C19"], "util/resolve/internal/versiontest/versiontest.go", "\t\t\t\tss = append(ss, value)", "\t\t\t\tss = append(ss, strconv.Quote(value))", more=[("\t\tattr.SetAttr(key, items[i])\n\t}\n\treturn attr, nil", "\t\tval, err := strconv.Unquote(items[i])\n\t\tif err != nil {\n\t\t\treturn version.AttrSet{}, err\n\t\t}\n\t\tattr.SetAttr(key, val)\n\t}\n\treturn attr, nil")], note="writer quotes and parser unquotes (structural guard only; values with spaces aside)")
 for x in B:
     json.dump({k: v for k, v in x.items() if k != "name"}, open(os.path.join("/verif/mutants/benign", x["name"] + ".json"), "w"), indent=1, ensure_ascii=False)
 print(len(M2), "C08 mutants;", len(B), "benign total")
